@@ -77,6 +77,10 @@ structure Syms where
   fixF3 : Bool := false
   /-- the code WITH fixes_proposed/C05-F4.diff (brackets stripped before the `_` test and in `^…`) -/
   fixF4 : Bool := false
+  /-- the code WITH fixes_proposed/C05-F2.diff (a pattern with only `_` arguments stays a function pattern) -/
+  fixF2 : Bool := false
+  /-- the code WITH fixes_proposed/C05-F5.diff (blanks stripped with the brackets, empty words skipped) -/
+  fixF5 : Bool := false
   deriving Repr
 
 def varName (v : Sym) : Str := "var".toList ++ (toString v.idx).toList
@@ -90,11 +94,9 @@ def sortVars (vs : List Sym) : List Sym := vs.foldr insertByIdx []
 
 def isStripParen (c : Char) : Bool := c = '(' || c = ')' || c = '{' || c = '}'
 
-/-- `__str_to_derivable_program__` (:170-190) -/
-def str2dp (Sy : Syms) (word : Str) : Option (List Sym) :=
-  if (if Sy.fixF4 then stripChars isStripParen word else word) = ['_'] then some (Sy.prims ++ Sy.vars) else
-  let w := stripChars isStripParen word
-  let allowed := (splitOn ',' w).eraseDups        -- `[word]` when there is no separator
+/-- the symbols denoted by a set of names (:180-190): every primitive with one of the names, then, for
+    every name `varK`, the variable(s) it denotes -/
+def resolveNames (Sy : Syms) (allowed : List Str) : Option (List Sym) :=
   let prims := Sy.prims.filter (fun P => allowed.contains P.name.toList)
   let svar := sortVars Sy.vars
   allowed.foldl (fun acc el =>
@@ -110,6 +112,12 @@ def str2dp (Sy : Syms) (word : Str) : Option (List Sym) :=
           | none => none                            -- IndexError
           | some v => some (ps ++ [v])
       else some ps) (some prims)
+
+/-- `__str_to_derivable_program__` (:170-190) -/
+def str2dp (Sy : Syms) (word : Str) : Option (List Sym) :=
+  if (if Sy.fixF4 then stripChars isStripParen word else word) = ['_'] then some (Sy.prims ++ Sy.vars) else
+  let w := stripChars isStripParen word
+  resolveNames Sy (splitOn ',' w).eraseDups      -- `[word]` when there is no separator
 
 def isSpace (c : Char) : Bool := c = ' ' || c = '\t' || c = '\n' || c = '\r'
 
@@ -151,12 +159,15 @@ def isAny : Tok Sym → Bool
   | _ => false
 
 /-- the tail of `parse_specification` (:254-262) -/
-def assemble (elements : List (Tok Sym)) : Option (Tok Sym) :=
+def assemble (fixF2 : Bool) (elements : List (Tok Sym)) : Option (Tok Sym) :=
   match elements with
   | [] => none                                      -- assert len(elements) > 0
-  | .allow S :: rest => if rest.all isAny then some .any else some (.func S rest)
+  | .allow S :: rest => if !fixF2 && rest.all isAny then some .any else some (.func S rest)
   | [e] => some e
   | _ => none                                       -- assert len(elements) == 1
+
+/-- the characters `parse_specification` strips from both ends: `strip(")(")`, with C05-F5 `strip(")( ")` -/
+def stripP (b : Bool) (c : Char) : Bool := c = ')' || c = '(' || (b && c = ' ')
 
 /-- the loop :245-253, with the recursive call for a parenthesised word abstracted as `rec`;
     `steps` bounds the number of iterations (each consumes at least one character) -/
@@ -166,6 +177,7 @@ def parseWords (Sy : Syms) (rec : Str → Option (Tok Sym)) : Nat → Str → Na
     if index < spec.length then
       let spec' := spec.drop index
       let wi := parseNextWord spec'
+      if Sy.fixF5 && wi.1.isEmpty then parseWords Sy rec steps spec' wi.2 else   -- C05-F5: `continue`
       let tok := if startsWith ['('] wi.1 then rec wi.1 else interpretWord Sy wi.1
       match tok with
       | none => none
@@ -179,10 +191,10 @@ def parseWords (Sy : Syms) (rec : Str → Option (Tok Sym)) : Nat → Str → Na
 def parseSpec (Sy : Syms) : Nat → Str → Option (Tok Sym)
   | 0, _ => none
   | fuel + 1, spec0 =>
-    let spec := stripChars (fun c => c = ')' || c = '(') (removeChar '\n' spec0)
+    let spec := stripChars (stripP Sy.fixF5) (removeChar '\n' spec0)
     match parseWords Sy (parseSpec Sy fuel) (spec.length + 1) spec 0 with
     | none => none
-    | some elements => assemble elements
+    | some elements => assemble Sy.fixF2 elements
 
 /-- `parse_specification` with enough fuel -/
 def parse (Sy : Syms) (s : Str) : Option (Tok Sym) := parseSpec Sy (s.length + 1) s
@@ -193,5 +205,81 @@ def parseAll (Sy : Syms) (cs : List Str) : Option (List (Tok Sym)) :=
   cs.foldr (fun c acc => match parse Sy c, acc with
     | some t, some ts => some (t :: ts)
     | _, _ => none) (some [])
+
+/-! ### the documented syntax: token trees as they are WRITTEN, their rendering and their meaning
+  `NSet := f1,...,fk | ^f1,...,fk | _` ; `Rules := (NSet R1 … Rk) | #NSet<=N | #NSet>=N`, plus the
+  sub-tree tokens `>NSet`, `>^NSet` of the library's tests.  Names and numbers are character strings. -/
+
+inductive RSet where
+  | names (ns : List Str)
+  | neg (ns : List Str)
+  deriving Repr
+
+inductive RTok where
+  | any
+  | set (s : RSet)                                   -- an argument pattern `a,b` / `^a,b`
+  | cntAll (most : Bool) (digits : Str)              -- `#_<=N` / `#_>=N`
+  | cnt (most : Bool) (ns : List Str) (digits : Str) -- `#(a,b)<=N`
+  | sub (force : Bool) (ns : List Str)               -- `>(a,b)` / `>^(a,b)`
+  | func (head : RSet) (args : List RTok)            -- `(head a1 … ak)`
+  deriving Repr
+
+def joinNames : List Str → Str
+  | [] => []
+  | [n] => n
+  | n :: ns => n ++ ',' :: joinNames ns
+
+def renderSet : RSet → Str
+  | .names ns => joinNames ns
+  | .neg ns => '^' :: joinNames ns
+
+mutual
+  /-- canonical rendering: one blank between the elements of a pattern, none elsewhere -/
+  def render : RTok → Str
+    | .any => ['_']
+    | .set s => renderSet s
+    | .cntAll most ds => '#' :: '_' :: (if most then '<' else '>') :: '=' :: ds
+    | .cnt most ns ds => '#' :: '(' :: (joinNames ns ++ ')' :: (if most then '<' else '>') :: '=' :: ds)
+    | .sub force ns => '>' :: ((if force then [] else ['^']) ++ '(' :: (joinNames ns ++ [')']))
+    | .func h args => '(' :: (renderSet h ++ renderArgs args ++ [')'])
+  def renderArgs : List RTok → Str
+    | [] => []
+    | a :: as => ' ' :: (render a ++ renderArgs as)
+end
+
+/-- the symbols of a complement: everything of the grammar whose name is not listed; `none` when
+    nothing is excluded (the parser then sees `_`) -/
+def resolveNeg (Sy : Syms) (ns : List Str) : Option (List Sym) :=
+  let out := Sy.prims.filter (fun P => !ns.contains P.name.toList) ++ Sy.vars.filter (fun V => !ns.contains (varName V))
+  if out.length = Sy.prims.length + Sy.vars.length then none else some out
+
+mutual
+  /-- the meaning of a written token tree: names resolved to the symbols of the grammar (`none`: the
+      parser raises — a malformed `varK`, a head set `^…` that excludes nothing).  With `Sy.fixF2`
+      (fixes_proposed/C05-F2.diff) this is the documented meaning; without it a pattern whose arguments
+      all mean `_` collapses to `_` (finding C05-F2). -/
+  def sem (Sy : Syms) : RTok → Option (Tok Sym)
+    | .any => some .any
+    | .set (.names ns) => (resolveNames Sy ns.eraseDups).map .allow
+    | .set (.neg ns) => some (match resolveNeg Sy ns with
+        | none => .any
+        | some S => .allow S)
+    | .cntAll most ds => (parseNat ds).map (fun n => if most then .atMost (Sy.prims ++ Sy.vars) n else .atLeast (Sy.prims ++ Sy.vars) n)
+    | .cnt most ns ds => match resolveNames Sy ns.eraseDups, parseNat ds with
+        | some S, some n => some (if most then .atMost S n else .atLeast S n)
+        | _, _ => none
+    | .sub force ns => (resolveNames Sy ns.eraseDups).map (fun S => if force then .forceSub S else .forbidSub S)
+    | .func h args =>
+      match (match h with
+        | .names ns => resolveNames Sy ns.eraseDups
+        | .neg ns => resolveNeg Sy ns), semArgs Sy args with
+      | some H, some as => if !Sy.fixF2 && as.all isAny then some .any else some (.func H as)
+      | _, _ => none
+  def semArgs (Sy : Syms) : List RTok → Option (List (Tok Sym))
+    | [] => some []
+    | a :: as => match sem Sy a, semArgs Sy as with
+      | some t, some ts => some (t :: ts)
+      | _, _ => none
+end
 
 end PS.C05
